@@ -24,6 +24,7 @@ DECLINED = ["'no later than its next scheduling point' as a timing statement",
 ASSUMPTIONS = ["C02/C11 for the switch primitives"]
 RULES_DOC = dict(common.SHARED_DOC)
 RULES_DOC["R6"] = "= C03.R1: a join returns only after it observed TERMINATED (a unit is never reported joined, and then freed or revived, while it is still running)"
+RULES_DOC["R7"] = "= C06.R1/R3/R4: every post-switch callback, including its cancel arm, leaves the blocked-unit counter balanced (a unit that terminates in a callback is not counted as blocked for ever)"
 RULES_DOC.update({
     "R1": "role-based census of every store to ABTI_thread::state",
     "R2": "callers of ABTI_thread_terminate are the five terminating roles",
@@ -329,3 +330,5 @@ def run(P, rep, tier):
     rule_R5(P, rep)
     from . import C03
     common.borrow(rep, P, C03.rule_R1, "R6")
+    from . import C06
+    common.borrow(rep, P, C06.rule_R1_R3_R4, "R7")
